@@ -3,7 +3,7 @@
    the lifecycle scripts selected by ScriptSet, an optional second stopper "S2" runs Script2. *)
 EXTENDS QtlThreads
 
-CONSTANTS NMsgs, ScriptSet, Script2Set, UseLogger, RecheckThread, SafeEnv, Locks, RealTime
+CONSTANTS NMsgs, ScriptSet, Script2Set, UseLogger, RecheckThread, SafeEnv, Locks, RealTime, Disconnect
 
 Scripts ==
     [ sync      |-> <<>>,                                                   \* never asynchronous
@@ -11,6 +11,9 @@ Scripts ==
       reset     |-> <<"appCreate", "move", "reset">>,                       \* explicit stop
       dtor      |-> <<"appCreate", "move", "execQuit", "appDestroy", "reset">>, \* quit, then the destructor's stop
       cycle     |-> <<"appCreate", "move", "reset", "move", "reset">>,      \* start/stop cycles
+      dtorquit  |-> <<"appCreate", "move", "reset", "free", "execQuit", "appDestroy">>,   \* logger destroyed, then quit
+      dtorspin  |-> <<"appCreate", "move", "reset", "free", "spin", "execQuit", "appDestroy">>,
+      cyclequit |-> <<"appCreate", "move", "reset", "move", "execQuit", "appDestroy">>, \* a stale hook and a live one
       noexec    |-> <<"appCreate", "move", "appDestroy", "reset">>,         \* application destroyed without exec()
       noapp     |-> <<"move", "reset">>,
       inproc    |-> <<"appCreate", "move", "reset">>,                        \* what the in-process harness does ...
@@ -20,7 +23,7 @@ Scripts2 == [ none |-> <<>>, reset |-> <<"reset">>, move |-> <<"move">> ]
 
 MCInit ==
     /\ Init
-    /\ conf = [useLogger |-> UseLogger, recheck |-> RecheckThread, safeEnv |-> SafeEnv, locks |-> Locks, eager |-> FALSE, rt |-> RealTime]
+    /\ conf = [useLogger |-> UseLogger, recheck |-> RecheckThread, safeEnv |-> SafeEnv, locks |-> Locks, eager |-> FALSE, rt |-> RealTime, disc |-> Disconnect]
     /\ todo = [t \in Producers |-> [i \in 1..NMsgs |-> <<t, i>>]]
     /\ \E a \in ScriptSet, b \in Script2Set :
           script = [s \in Stoppers |-> IF s = "M" THEN Scripts[a] ELSE Scripts2[b]]
